@@ -960,6 +960,49 @@ def main(ck: Check):
         for r, h in zip(res, handlers):
             h(r)
 
+    # ------------------------------------------------------------------ the same under concurrent use
+    # (the FastAPI thread pool interprets specifications of several requests at once): a few threads evaluate the same
+    # expressions under DIFFERENT bindings with a very short switch interval; every answer must be the sequential one
+    import sys
+    import threading
+    names3 = ["x", "y", "skill_level"]
+    conc_exprs = ["x + y * skill_level", "(x + y) * skill_level - x", "min(x, y) + max(y, skill_level) + x",
+                  "x * 2 + y * 3 + skill_level * 5 + x + y", "ceil(x / 7) + floor(y / 3) + skill_level"]
+    conc_exprs += [gen_expr(rng, 2, False, names3) for _ in range(8 if quick else 40)]
+    conc_envs = [{"x": 1 + 10 * t, "y": 2 + 100 * t, "skill_level": 3 + 1000 * t} for t in range(4)]
+    expected = [[real_eval(e, env) for e in conc_exprs] for env in conc_envs]
+    got_all: dict[int, list] = {}
+
+    def conc_worker(t):
+        out = []
+        for _round in range(6 if quick else 30):
+            out.append([real_eval(e, conc_envs[t]) for e in conc_exprs])
+        got_all[t] = out
+    old_si = sys.getswitchinterval()
+    sys.setswitchinterval(1e-6)
+    try:
+        ths = [threading.Thread(target=conc_worker, args=(t,)) for t in range(len(conc_envs))]
+        for th in ths:
+            th.start()
+        for th in ths:
+            th.join(300)
+    finally:
+        sys.setswitchinterval(old_si)
+    conc_points = 0
+    for t, rounds in got_all.items():
+        for rd in rounds:
+            for e, g, w in zip(conc_exprs, rd, expected[t]):
+                conc_points += 1
+                if repr(g) != repr(w):
+                    fail("evaluate_expression", "differs-when-other-threads-evaluate-under-other-bindings", expression=e,
+                         variables=conc_envs[t], observed=g, sequential_answer=w,
+                         other_threads_bindings=[v for k, v in enumerate(conc_envs) if k != t])
+                    break
+            else:
+                continue
+            break
+    stats["concurrent_evaluations"] = conc_points
+
     n_distinct = len(distinct_exprs) + len(distinct_docs)
     ck.coverage.update({
         "evaluations": len(reqs) + shipped["interpret_calls"] * 3,
